@@ -20,7 +20,7 @@ use serde_json::{json, Value};
 
 use yamaquasi::{factor, Algo, Preferences, Verbosity};
 
-use crate::gen::{rng_for, Pool, Uint};
+use crate::gen::{rand_bits, rng_for, Pool, Uint};
 use crate::trace::*;
 
 // ------------------------------------------------------------------------------------------
@@ -648,10 +648,53 @@ pub fn run(args: &Args) -> i32 {
     let perts_per = if thorough { 25 } else { 4 }; // per (input, selector): total >= 20 per (selector, threads) over inputs
     let gate_kinds = ["rand", "rand", "gapgate", "wgate", "taskgate", "rand"];
 
-    let mut stop = false;
-    for (ii, (name, bits)) in shapes.iter().enumerate() {
+    // ECM seed edge: the curve seeds of a stage with C curves are the low 32 bits of n * (2C+1)^k, k = 1..C,
+    // clamped to at least 2.  Inputs whose k-th seed is exactly 1 (n = (2C+1)^-k mod 2^32, C = 10: the first
+    // stage of the pure ECM schedule) exercise the clamp; a thread pool evaluates every seed of a batch while the
+    // sequential loop stops at the first success.  Both primes are below 2^31 (certified by trial division).
+    let mut all_inputs: Vec<(Input, bool)> = vec![];
+    for (name, bits) in shapes.iter() {
         // all shards generate the same inputs (same pool order); each handles its own inputs
-        let inp = make_input(&mut pool, &format!("{}-s{}", name, seed), bits);
+        all_inputs.push((make_input(&mut pool, &format!("{}-s{}", name, seed), bits), false));
+    }
+    {
+        let mut erng = rng_for(seed, "c04-seededge");
+        for k in [3u32, 10] {
+            // 21^-k mod 2^32
+            let mut inv21: u64 = 1;
+            for _ in 0..5 {
+                inv21 = inv21.wrapping_mul(2u64.wrapping_sub(21u64.wrapping_mul(inv21))); // Newton: inverse mod 2^64
+            }
+            let mut r: u64 = 1;
+            for _ in 0..k {
+                r = r.wrapping_mul(inv21);
+            }
+            let r = r & 0xffff_ffff;
+            let inp = loop {
+                let p = (rand_bits(&mut erng, 30).digits()[0] | 1) as u64;
+                if !crate::gen::is_prime_u64(p) {
+                    continue;
+                }
+                // q = r * p^-1 mod 2^32
+                let mut pinv: u64 = 1;
+                for _ in 0..6 {
+                    pinv = pinv.wrapping_mul(2u64.wrapping_sub(p.wrapping_mul(pinv)));
+                }
+                let q = r.wrapping_mul(pinv) & 0xffff_ffff;
+                if q < (1 << 28) || q >= (1 << 31) || q == p || !crate::gen::is_prime_u64(q) {
+                    continue;
+                }
+                debug_assert!((p * q) & 0xffff_ffff == r);
+                let mut primes = vec![Uint::from(p), Uint::from(q)];
+                primes.sort();
+                let chains = primes.iter().map(|x| Pool::small_chain(x.digits()[0])).collect();
+                break Input { id: format!("seed1at{}-s{}", k, seed), n: Uint::from(p) * Uint::from(q), primes, chains };
+            };
+            all_inputs.push((inp, true));
+        }
+    }
+    let mut stop = false;
+    for (ii, (inp, ecm_only)) in all_inputs.into_iter().enumerate() {
         let plan_seed: u64 = rng.gen();
         if ii % nshards != shard || stop {
             continue;
@@ -666,6 +709,9 @@ pub fn run(args: &Args) -> i32 {
         let mut runno = 0;
         let mut tcount = 0usize;
         for sel in selectors {
+            if ecm_only && sel != "Ecm" {
+                continue;
+            }
             if let Some(ss) = &sels_arg {
                 if !ss.iter().any(|x| x == sel) {
                     continue;
